@@ -200,11 +200,14 @@ func (zns *ZnPMServer) spawnProcess(cfg ZnPMServerConfig, l *net.TCPListener, p 
 	cmd.Stdout = os.Stdout
 	cmd.ExtraFiles = []*os.File{lf}
 
+	verifPMGate("spawn-start", 0, 0)
 	if err := cmd.Start(); err != nil {
 		return err
 	}
 	// store child process
 	pid := cmd.Process.Pid
+	verifPM("started", pid, 0, 0, 0, 0)
+	verifPMGate("send-add", pid, 0)
 
 	// register new child process to workerState
 	zns.addChan <- workerState{
@@ -215,6 +218,8 @@ func (zns *ZnPMServer) spawnProcess(cfg ZnPMServerConfig, l *net.TCPListener, p 
 	// send msg to channel when cmd ends running
 	go func() {
 		cmd.Wait()
+		verifPM("exited", pid, 0, 0, 0, 0)
+		verifPMGate("send-del", pid, 0)
 		// after cmd is done, send pid to del channel
 		zns.delChan <- pid
 	}()
@@ -243,6 +248,7 @@ func (zns *ZnPMServer) readNamedPipe(pipe *pipe) {
 		pid = int(binary.BigEndian.Uint32(buf))
 		state = buf[4]
 
+		verifPMGate("send-update", pid, state)
 		zns.updateChan <- workerState{
 			pid:   pid,
 			state: state,
@@ -258,6 +264,7 @@ func (zns *ZnPMServer) maintainChildState(cfg ZnPMServerConfig, ln *net.TCPListe
 		case aw := <-zns.addChan:
 			zns.childs[aw.pid] = aw
 			zns.refCount = len(zns.childs)
+			verifPM("add", aw.pid, aw.state, zns.refCount, len(zns.childs), 0)
 		case uw := <-zns.updateChan:
 			if oldState, ok := zns.childs[uw.pid]; ok {
 				zns.childs[uw.pid] = workerState{
@@ -266,6 +273,7 @@ func (zns *ZnPMServer) maintainChildState(cfg ZnPMServerConfig, ln *net.TCPListe
 					cmd:   oldState.cmd,
 				}
 			}
+			verifPM("update", uw.pid, uw.state, zns.refCount, len(zns.childs), 0)
 			// spawn more process (total procs not exceed the number of `maxProcs`)
 			// when there's no idle process
 			// count the number of idle processes
@@ -288,6 +296,7 @@ func (zns *ZnPMServer) maintainChildState(cfg ZnPMServerConfig, ln *net.TCPListe
 
 				addNum := finalProcNum - currentNum
 				zns.refCount = finalProcNum
+				verifPM("reserve", uw.pid, uw.state, zns.refCount, len(zns.childs), addNum)
 				go func() {
 					for i := 0; i < addNum; i++ {
 						if err := zns.spawnProcess(cfg, ln, p); err != nil {
@@ -300,10 +309,12 @@ func (zns *ZnPMServer) maintainChildState(cfg ZnPMServerConfig, ln *net.TCPListe
 		case pid := <-zns.delChan:
 			delete(zns.childs, pid)
 			zns.refCount -= 1
+			verifPM("del", pid, 0, zns.refCount, len(zns.childs), 0)
 			// check if the number of current existing procs is lower than `initProcs`
 			if zns.refCount < cfg.InitProcs {
 				numsToSpawn := cfg.InitProcs - zns.refCount
 				zns.refCount += numsToSpawn
+				verifPM("refill", pid, 0, zns.refCount, len(zns.childs), numsToSpawn)
 				// spawn more processes to ensure minimum proc number
 				go func() {
 					for i := 0; i < numsToSpawn; i++ {
